@@ -543,6 +543,14 @@ func (t *tr) call(e *ast.CallExpr, en env) V {
 		}
 		return V{x.L, "PairRange"}
 	}
+	if cs, ok := t.u.Calls[callee]; ok && cs.Walk != "" && len(e.Args) == 2 {
+		// `k.IterateX(ctx, closure)`: the keeper's walk over the whole collection X (that IterateX is
+		// exactly `k.X.Walk(ctx, nil, cb)` is the regenerated table `iterators`)
+		if fl, ok := e.Args[1].(*ast.FuncLit); ok {
+			return t.walkFold(cs, fl, en)
+		}
+		return t.bad("IterateX without a function literal")
+	}
 	if cs, ok := t.u.Calls[callee]; ok && cs.Walk != "" && len(e.Args) == 3 {
 		if fl, ok := e.Args[2].(*ast.FuncLit); ok {
 			if identName(e.Args[1]) != "nil" {
